@@ -179,8 +179,27 @@ func (c02) Gen(seed uint64, tier string) json.RawMessage {
 		case "commit":
 			op.N = r.Intn(2) // 1 = also flush to disk
 		case "fault":
-			op.N = r.Range(1, 4)   // which disk read of the next op fails
-			op.T = r.Intn(2)       // 0 = error, 1 = reported missing
+			op.N = r.Range(1, 4) // which disk read of the next op fails
+			op.T = r.Intn(2)     // 0 = error, 1 = reported missing
+			if r.Chance(0.7) {
+				// place the fault where it can fire: flush, drop every cache, then fail a read of an
+				// operation that has to resolve nodes from disk
+				tr := r.Intn(p.Tries)
+				p.Ops = append(p.Ops, c02Op{K: "commit", T: tr, N: 1}, c02Op{K: "cold", T: tr})
+				op.N = r.Range(1, 2)
+				p.Ops = append(p.Ops, op)
+				nk := []string{"get", "upd", "del", "iter", "hash"}[r.Intn(5)]
+				nx := c02Op{K: nk, T: tr}
+				switch nk {
+				case "upd":
+					nx.Key = hex.EncodeToString(pool[r.Intn(len(pool))])
+					nx.Val = hex.EncodeToString(c02Val(r, i+1))
+				case "get", "del":
+					nx.Key = hex.EncodeToString(pool[r.Intn(len(pool))])
+				}
+				p.Ops = append(p.Ops, nx)
+				continue
+			}
 		}
 		p.Ops = append(p.Ops, op)
 	}
@@ -293,6 +312,7 @@ func (c02) Exec(raw json.RawMessage, st *simrt.Stats, log *simrt.Log) *simrt.Vio
 	}
 	for i, op := range p.Ops {
 		st.Ops++
+		rawT := op.T
 		if op.T >= len(ts) || op.T < 0 {
 			op.T = 0
 		}
@@ -457,7 +477,7 @@ func (c02) Exec(raw json.RawMessage, st *simrt.Stats, log *simrt.Log) *simrt.Vio
 			}
 		case "fault":
 			faultArmed = op.N
-			faultMissing = op.T == 1
+			faultMissing = rawT == 1
 		}
 		kv.ReadFault, kv.ReadMissing = nil, nil
 		if faulty {
